@@ -68,7 +68,7 @@ pub async fn run_swarm_worker(
             torrents.borrow_mut().clean(&config, &access_list, server_start_instant);
 
             #[cfg(aquatic_verif)]
-            aquatic_common::verif::count("ws.clean_done");
+            aquatic_common::verif::count_per_thread("ws.clean_done");
 
             Some(Duration::from_secs(config.cleaning.torrent_cleaning_interval))
         })()
